@@ -258,6 +258,35 @@ def step (st : State) (i : Input) : State :=
 
 def run (st : State) (is : List Input) : State := is.foldl step st
 
+/-! ### `OpenConnectionCompleted.reply` (`str | None`) and where it comes from
+
+  The layers test the reply with `if err:` — Python truthiness: `None` and the EMPTY string both count as "no error".
+  `ConnectionHandler.open_connection` therefore has to make sure that a failed attempt never yields an empty message. -/
+
+/-- `if err:` for a reply of type `str | None` -/
+def truthy : Option Bytes → Bool
+  | none => false
+  | some [] => false
+  | some (_ :: _) => true
+
+/-- the input the layer sees when `OpenConnectionCompleted(command, reply)` arrives -/
+def replyInput (r : Option Bytes) : Input := .connectDone (truthy r)
+
+/-- how the attempt in `open_connection` ended -/
+inductive ConnectOutcome
+  | ok                          -- the transport is up
+  | oserror (msg : Bytes)       -- `except OSError as e`, `msg = str(e)` (empty for a bare TimeoutError() / OSError())
+  | cancelled                   -- `except asyncio.CancelledError` (`str(e)` is empty)
+deriving DecidableEq, Repr
+
+def cancelledMsg : Bytes := "connection cancelled".toUTF8.toList
+
+/-- `err = str(e); if not err: err = "connection cancelled"` -/
+def openConnectionReply : ConnectOutcome → Option Bytes
+  | .ok => none
+  | .oserror msg => some (if msg.isEmpty then cancelledMsg else msg)
+  | .cancelled => some cancelledMsg
+
 /-! observation helpers -/
 
 def isEndOrError : Output → Bool
